@@ -392,6 +392,22 @@ func checkLanguage(r *ev.Run, t *lrref.Table, maxLen, realLen int) {
 		if len(seq) == maxLen {
 			return
 		}
+		// text that is no token at all, after every viable prefix (complete specifications among them): the scanner's
+		// error is not the end of the input
+		if mine && len(seq) >= 2 && len(seq) <= errLen {
+			for _, stray := range []string{"#", "~", "\"open", "@lef"} {
+				for _, suffix := range errSuffixes {
+					bad := append(append(append([]string{}, seq...), stray), suffix...)
+					got, pan := realParse(bad)
+					r.Add("real_driver_runs", 1)
+					r.Add("real_driver_runs_after_stray_text", 1)
+					if pan == nil && got {
+						r.Report("", fmt.Sprintf("text %q: Parser.Parse accepts a text holding %q, which is no token", render(bad), stray),
+							map[string]any{"Kind": "sequence", "Seq": bad})
+					}
+				}
+			}
+		}
 		for _, k := range kinds {
 			ni, nr := di, dr
 			oi, or := false, false
